@@ -516,3 +516,353 @@ Proof.
   destruct (close_mapped_dead (p_map s) (p_inst s) (p_out s) ND (fun c k Hk => proj2 (HM c k Hk)) ch i Hin) as (w & A & D).
   rewrite Ec in A. eauto.
 Qed.
+
+(* ---------------------------------------------------------------- the per-writer specification inside the perChannelWriter
+   Ghost: for every writer instance, the items added to it (while open) since its last flush or close.
+   Every batch any schedule makes any instance hand to flushFn is the specification's flush of that ghost. *)
+Definition ghost := nat -> list citem.
+Definition gset (g : ghost) (i : nat) (v : list citem) : ghost := fun j => if j =? i then v else g j.
+
+Definition emitted (s s' : pst) : list (N * nat * list citem) := skipn (length (p_out s)) (p_out s').
+
+(* the instance an Add of thread t goes to, and whether that instance accepts it *)
+Definition add_target (s : pst) (t : nat) : option (nat * bool) :=
+  match lookup (p_refs s) t with
+  | Some (_, i) => match lookup (p_inst s) i with Some w => Some (i, negb (cw_closed w)) | None => None end
+  | None => None
+  end.
+
+(* pending of instance j as seen by the step that is being taken *)
+Definition gview (s : pst) (g : ghost) (l : plabel) (j : nat) : list citem :=
+  match l with
+  | PAdd t x => match add_target s t with
+                | Some (i, true) => if j =? i then g j ++ [x] else g j
+                | _ => g j
+                end
+  | _ => g j
+  end.
+
+Definition step_spec (cf : N -> bcfg) (s : pst) (g : ghost) (l : plabel) (s' : pst) : Prop :=
+  forall ch j batch, In (ch, j, batch) (emitted s s') ->
+    batch = flush_spec (b_latest (cf (chan_of s j))) (gview s g l j).
+
+Definition closed_by (s : pst) (l : plabel) (j : nat) : bool :=
+  match l with
+  | PDel ch _ => match lookupN (p_map s) ch with Some i => j =? i | None => false end
+  | PClose _ => mapped s j
+  | _ => false
+  end.
+
+Definition gnext (s : pst) (g : ghost) (l : plabel) (s' : pst) : ghost :=
+  fun j => if existsb (fun e => snd (fst e) =? j) (emitted s s') || closed_by s l j then []
+           else gview s g l j.
+
+Fixpoint gcheck (cf : N -> bcfg) (s : pst) (g : ghost) (sched : list plabel) : Prop :=
+  match sched with
+  | [] => True
+  | l :: sched' =>
+      match pstep cf s l with
+      | Some s' => step_spec cf s g l s' /\ gcheck cf s' (gnext s g l s') sched'
+      | None => True
+      end
+  end.
+
+(* table consistency: an instance is only ever reached under the channel it was created for *)
+Definition CI (s : pst) : Prop :=
+  (forall t ch i, lookup (p_refs s) t = Some (ch, i) -> lookup (p_ich s) i = Some ch /\ lookup (p_inst s) i <> None) /\
+  (forall ch i, In (ch, i) (p_map s) -> lookup (p_ich s) i = Some ch) /\
+  (forall i ch, lookup (p_ich s) i = Some ch -> i < p_next s).
+
+Definition GI (cf : N -> bcfg) (s : pst) (g : ghost) : Prop :=
+  WFp s /\ CI s /\
+  (forall i w, lookup (p_inst s) i = Some w -> Rel (cf (chan_of s i)) w (g i)) /\
+  (forall i, lookup (p_inst s) i = None -> g i = []).
+
+Lemma lookup_remove_k {A} (l : list (nat * A)) t t' : t <> t' -> lookup (remove_k l t) t' = lookup l t'.
+Proof.
+  intros Hne. unfold remove_k. induction l as [|[k v] l IH]; cbn; auto.
+  destruct (k =? t) eqn:E; cbn.
+  - apply Nat.eqb_eq in E. subst. replace (t =? t') with false by (symmetry; apply Nat.eqb_neq; auto). exact IH.
+  - destruct (k =? t'); auto.
+Qed.
+
+Lemma lookup_remove_k_same {A} (l : list (nat * A)) t : lookup (remove_k l t) t = None.
+Proof.
+  unfold remove_k. induction l as [|[k x] l IH]; cbn; auto.
+  destruct (k =? t) eqn:E; cbn; auto. rewrite E. exact IH.
+Qed.
+
+Lemma lookup_remove_k_some {A} (l : list (nat * A)) t t' v : lookup (remove_k l t) t' = Some v -> lookup l t' = Some v.
+Proof.
+  destruct (Nat.eq_dec t t') as [->|Hne]; [|rewrite lookup_remove_k; auto].
+  rewrite lookup_remove_k_same. discriminate.
+Qed.
+
+Lemma emitted_emit s out' ch i b : out' = emit (p_out s) ch i b ->
+  skipn (length (p_out s)) out' = match b with Some items => [(ch, i, items)] | None => [] end.
+Proof.
+  intros ->. destruct b; cbn.
+  - rewrite skipn_app, Nat.sub_diag, skipn_all. reflexivity.
+  - apply skipn_all.
+Qed.
+
+Lemma GI_init cf : GI cf p_init (fun _ => []).
+Proof.
+  split; [apply WFp_init|]. split.
+  - unfold CI, p_init; cbn. repeat split; try discriminate; contradiction.
+  - split; [intros i w H; discriminate|reflexivity].
+Qed.
+
+Lemma emitted_same s s' : p_out s' = p_out s -> emitted s s' = [].
+Proof. intros H. unfold emitted. rewrite H. apply skipn_all. Qed.
+
+(* Close: every mapped instance flushes (or not) according to the specification and ends empty *)
+Definition cm_step (flush : bool) : list (nat * cw) * list (N * nat * list citem) -> N * nat ->
+                                    list (nat * cw) * list (N * nat * list citem) :=
+  fun '(insts, out) '(ch, j) =>
+  match lookup insts j with
+  | Some w => let '(w1, b) := cw_close flush w in ((j, w1) :: insts, emit out ch j b)
+  | None => (insts, out)
+  end.
+
+Lemma close_mapped_cm flush s : close_mapped flush s = fold_left (cm_step flush) (p_map s) (p_inst s, p_out s).
+Proof. reflexivity. Qed.
+
+Lemma close_mapped_spec cf flush (g : ghost) : forall m insts out,
+  NoDup (map snd m) ->
+  (forall ch j, In (ch, j) m -> exists w, lookup insts j = Some w /\ Rel (cf ch) w (g j)) ->
+  (forall j, existsb (fun ci => snd ci =? j) m = false ->
+             lookup (fst (fold_left (cm_step flush) m (insts, out))) j = lookup insts j) /\
+  (forall ch j, In (ch, j) m ->
+             exists w', lookup (fst (fold_left (cm_step flush) m (insts, out))) j = Some w' /\ Rel (cf ch) w' []) /\
+  exists E, snd (fold_left (cm_step flush) m (insts, out)) = out ++ E /\
+            forall ch j batch, In (ch, j, batch) E -> In (ch, j) m /\ batch = flush_spec (b_latest (cf ch)) (g j).
+Proof.
+  induction m as [|[c j] m IH]; intros insts out ND Hex; cbn [fold_left].
+  - split; [auto|]. split; [intros ? ? []|]. exists []. rewrite app_nil_r. split; auto. intros ? ? ? [].
+  - cbn in ND. inversion ND as [|? ? Hnin ND']; subst.
+    destruct (Hex c j (or_introl eq_refl)) as (wj & Ej & Rj).
+    pose proof (close_rel (cf c) flush wj (g j) Rj) as CR.
+    destruct (cw_close flush wj) as [w1 b] eqn:Ec.
+    replace (cm_step flush (insts, out) (c, j)) with ((j, w1) :: insts, emit out c j b)
+      by (unfold cm_step; rewrite Ej, Ec; reflexivity).
+    assert (Hnj : existsb (fun ci => snd ci =? j) m = false).
+    { destruct (existsb (fun ci => snd ci =? j) m) eqn:E; auto. apply existsb_exists in E.
+      destruct E as ([c' k'] & Hk & Ek). cbn in Ek. apply Nat.eqb_eq in Ek. subst k'.
+      exfalso. apply Hnin. apply in_map_iff. exists (c', j). auto. }
+    destruct (IH ((j, w1) :: insts) (emit out c j b) ND') as (A & B & E & HE & HEin).
+    { intros ch k Hin. destruct (Hex ch k (or_intror Hin)) as (wk & Ek & Rk). exists wk. split; auto.
+      cbn. replace (j =? k) with false; auto. symmetry. apply Nat.eqb_neq. intros ->.
+      apply Hnin. apply in_map_iff. exists (ch, k). auto. }
+    split; [|split].
+    + intros k Hk. cbn in Hk. apply orb_false_iff in Hk. destruct Hk as [Hjk Hk]. rewrite (A k Hk).
+      cbn. rewrite Hjk. reflexivity.
+    + intros ch k [Heq|Hin].
+      * injection Heq as <- <-. rewrite (A j Hnj). cbn. rewrite Nat.eqb_refl. exists w1. split; auto.
+        destruct b; [destruct CR as (_ & _ & R1)|]; auto.
+      * apply B; auto.
+    + destruct b as [batch|].
+      * destruct CR as (_ & Hb & _). exists ((c, j, batch) :: E). rewrite HE. cbn [emit]. rewrite <- app_assoc. split; auto.
+        intros ch k bt [Heq|Hin]; [injection Heq as <- <- <-; split; [left; auto|auto]|].
+        destruct (HEin ch k bt Hin). split; auto. right; auto.
+      * exists E. rewrite HE. cbn [emit]. split; auto. intros ch k bt Hin. destruct (HEin ch k bt Hin). split; auto. right; auto.
+Qed.
+
+Lemma chan_of_stable s s' i : p_ich s' = p_ich s -> chan_of s' i = chan_of s i.
+Proof. intros H. unfold chan_of. rewrite H. reflexivity. Qed.
+
+Ltac gi_simple_out :=
+  match goal with |- context [emitted ?s ?s'] => rewrite (emitted_same s s') by reflexivity end.
+
+Lemma gstep_ok cf s g l s' : GI cf s g -> pstep cf s l = Some s' ->
+  step_spec cf s g l s' /\ GI cf s' (gnext s g l s').
+Proof.
+  intros (HW & (C1 & C2 & C3) & HR & HN) H.
+  pose proof (WFp_step cf s l s' HW H) as HW'.
+  unfold pstep in H. destruct l; cbn [pstep_gen] in H.
+  - (* PGet *)
+    destruct (lookup (p_refs s) t) eqn:Et; [discriminate|].
+    destruct (lookupN (p_map s) ch) as [i|] eqn:Ei; injection H as <-.
+    + split; [intros c j b Hin; rewrite emitted_same in Hin by reflexivity; destruct Hin|].
+      split; [exact HW'|]. split; [|split].
+      * unfold CI; cbn. split; [|split; auto].
+        intros t0 c0 i0. destruct (t =? t0); [|apply C1].
+        intros [= <- <-]. apply lookupN_mapped in Ei. split; [apply C2; auto|].
+        destruct HW as (_ & HM & _). apply (HM ch i Ei).
+      * intros j w Hl. unfold gnext. rewrite emitted_same by reflexivity. cbn. apply HR. exact Hl.
+      * intros j Hl. unfold gnext. rewrite emitted_same by reflexivity. cbn. apply HN. exact Hl.
+    + assert (Hfresh : lookup (p_inst s) (p_next s) = None).
+      { destruct (lookup (p_inst s) (p_next s)) eqn:E; auto. destruct HW as (_ & _ & HI). specialize (HI _ _ E). lia. }
+      split; [intros c j b Hin; rewrite emitted_same in Hin by reflexivity; destruct Hin|].
+      split; [exact HW'|]. split; [|split].
+      * unfold CI; cbn. split; [|split].
+        -- intros t0 c0 i0. destruct (t =? t0).
+           ++ intros [= <- <-]. rewrite Nat.eqb_refl. split; auto. discriminate.
+           ++ intros Hl. destruct (C1 _ _ _ Hl) as (A & B). specialize (C3 _ _ A).
+              replace (p_next s =? i0) with false by (symmetry; apply Nat.eqb_neq; lia). auto.
+        -- intros c0 i0 [E|Hin].
+           ++ injection E as <- <-. rewrite Nat.eqb_refl. reflexivity.
+           ++ pose proof (C2 _ _ Hin) as A. specialize (C3 _ _ A).
+              replace (p_next s =? i0) with false by (symmetry; apply Nat.eqb_neq; lia). exact A.
+        -- intros i0 c0. destruct (p_next s =? i0) eqn:E; [apply Nat.eqb_eq in E; lia|].
+           intros Hl. specialize (C3 _ _ Hl). lia.
+      * intros j w. cbn [p_inst lookup]. unfold gnext. rewrite emitted_same by reflexivity. cbn [orb closed_by gview].
+        destruct (p_next s =? j) eqn:E.
+        -- apply Nat.eqb_eq in E. subst j. intros [= <-]. rewrite (HN _ Hfresh). apply Rel_new.
+        -- intros Hl. unfold chan_of; cbn [p_ich lookup]. rewrite E. apply HR. exact Hl.
+      * intros j. cbn [p_inst lookup]. unfold gnext. rewrite emitted_same by reflexivity. cbn [orb closed_by gview].
+        destruct (p_next s =? j); [discriminate|]. apply HN.
+  - (* PAdd *)
+    destruct (lookup (p_refs s) t) as [[ch i]|] eqn:Et; [|discriminate].
+    destruct (lookup (p_inst s) i) as [w|] eqn:Ei; [|discriminate].
+    destruct (C1 _ _ _ Et) as (Hch & _).
+    assert (Hc : chan_of s i = ch) by (unfold chan_of; rewrite Hch; reflexivity).
+    pose proof (HR i w Ei) as R. rewrite Hc in R.
+    pose proof (add_rel (cf ch) (p_next s) w (g i) x R) as A.
+    fold (cw_add (cf ch) (p_next s) w x) in H.
+    destruct (cw_add (cf ch) (p_next s) w x) as [[w1 b] armed] eqn:Ea. injection H as <-.
+    assert (Ht : add_target s t = Some (i, negb (cw_closed w))) by (unfold add_target; rewrite Et, Ei; reflexivity).
+    assert (Hem : emitted s (mkP (p_map s) ((i, w1) :: p_inst s) (p_ich s) (remove_k (p_refs s) t)
+                               (if armed then (p_next s, i) :: p_timers s else p_timers s)
+                               (if armed then S (p_next s) else p_next s) (emit (p_out s) ch i b))
+                  = match b with Some items => [(ch, i, items)] | None => [] end).
+    { unfold emitted. apply emitted_emit. reflexivity. }
+    split.
+    + intros c j bt Hin. rewrite Hem in Hin. destruct b as [items|]; [|destruct Hin].
+      destruct Hin as [E|[]]. injection E as <- <- <-. destruct A as (A0 & A1 & _).
+      rewrite Hc. cbn [gview]. rewrite Ht, A0. cbn [negb]. rewrite Nat.eqb_refl. exact A1.
+    + split; [exact HW'|]. split; [|split].
+      * unfold CI; cbn. split; [|split].
+        -- intros t0 c0 i0 Hl. apply lookup_remove_k_some in Hl. destruct (C1 _ _ _ Hl) as (A1 & A2). split; auto.
+           destruct (i =? i0); [discriminate|auto].
+        -- exact C2.
+        -- intros i0 c0 Hl. specialize (C3 _ _ Hl). destruct armed; lia.
+      * intros j wj. cbn [p_inst lookup]. unfold gnext. rewrite Hem. cbn [closed_by orb gview]. rewrite Ht.
+        rewrite (chan_of_stable s _ j) by reflexivity.
+        destruct (i =? j) eqn:E.
+        -- apply Nat.eqb_eq in E. subst j. intros [= <-]. rewrite Hc. rewrite Nat.eqb_refl.
+           destruct b as [items|]; cbn [existsb fst snd].
+           ++ rewrite Nat.eqb_refl. cbn. apply A.
+           ++ cbn. destruct A as (A1 & _). destruct (cw_closed w); exact A1.
+        -- intros Hl. rewrite Nat.eqb_sym in E.
+           replace (existsb _ _) with false.
+           ++ cbn. destruct (negb (cw_closed w)); rewrite ?E; apply HR; exact Hl.
+           ++ destruct b; cbn; [rewrite Nat.eqb_sym, E|]; reflexivity.
+      * intros j. cbn [p_inst lookup]. destruct (i =? j) eqn:E; [discriminate|]. intros Hl.
+        unfold gnext. rewrite Hem. cbn [closed_by orb gview]. rewrite Ht. rewrite Nat.eqb_sym in E.
+        replace (existsb _ _) with false by (destruct b; cbn; [rewrite Nat.eqb_sym, E|]; reflexivity).
+        cbn. destruct (negb (cw_closed w)); rewrite ?E; apply HN; exact Hl.
+  - (* PFire *)
+    destruct (lookup (p_timers s) tm) as [i|]; [|discriminate].
+    destruct (lookup (p_inst s) i) as [w|] eqn:Ei; [|discriminate].
+    pose proof (fire_rel (cf (chan_of s i)) tm w (g i) (HR i w Ei)) as A.
+    destruct (cw_fire tm w) as [w1 b] eqn:Ef. injection H as <-.
+    assert (Hem : emitted s (mkP (p_map s) ((i, w1) :: p_inst s) (p_ich s) (p_refs s) (remove_k (p_timers s) tm)
+                               (p_next s) (emit (p_out s) (chan_of s i) i b))
+                  = match b with Some items => [(chan_of s i, i, items)] | None => [] end).
+    { unfold emitted. apply emitted_emit. reflexivity. }
+    split.
+    + intros c j bt Hin. rewrite Hem in Hin. destruct b as [items|]; [|destruct Hin].
+      destruct Hin as [E|[]]. injection E as <- <- <-. apply A.
+    + split; [exact HW'|]. split; [|split].
+      * unfold CI; cbn. split; [|split; auto].
+        intros t0 c0 i0 Hl. destruct (C1 _ _ _ Hl) as (A1 & A2). split; auto. destruct (i =? i0); [discriminate|auto].
+      * intros j wj. cbn [p_inst lookup]. unfold gnext. rewrite Hem. cbn [closed_by orb gview].
+        rewrite (chan_of_stable s _ j) by reflexivity.
+        destruct (i =? j) eqn:E.
+        -- apply Nat.eqb_eq in E. subst j. intros [= <-].
+           destruct b as [items|]; cbn [existsb fst snd]; [rewrite Nat.eqb_refl; cbn; apply A|cbn; exact A].
+        -- intros Hl. replace (existsb _ _) with false by (destruct b; cbn; [rewrite E|]; reflexivity).
+           cbn. apply HR; exact Hl.
+      * intros j. cbn [p_inst lookup]. destruct (i =? j) eqn:E; [discriminate|]. intros Hl.
+        unfold gnext. rewrite Hem. cbn [closed_by orb gview].
+        replace (existsb _ _) with false by (destruct b; cbn; [rewrite E|]; reflexivity).
+        cbn. apply HN; exact Hl.
+  - (* PCancelled *)
+    destruct (lookup (p_timers s) tm) as [i|]; [|discriminate].
+    destruct (lookup (p_inst s) i) as [w|]; [|discriminate].
+    assert (Hs : forall s1, s1 = mkP (p_map s) (p_inst s) (p_ich s) (p_refs s) (remove_k (p_timers s) tm) (p_next s) (p_out s) ->
+              WFp s1 -> step_spec cf s g (PCancelled tm) s1 /\ GI cf s1 (gnext s g (PCancelled tm) s1)).
+    { intros s1 -> HW1. split; [intros c j b Hin; rewrite emitted_same in Hin by reflexivity; destruct Hin|].
+      split; [exact HW1|]. split; [unfold CI; cbn; auto|]. split.
+      - intros j wj Hl. unfold gnext. rewrite emitted_same by reflexivity. cbn. apply HR. exact Hl.
+      - intros j Hl. unfold gnext. rewrite emitted_same by reflexivity. cbn. apply HN. exact Hl. }
+    destruct (cw_timer w) as [t0|]; [destruct (t0 =? tm); [discriminate|]|]; injection H as <-; apply Hs; auto.
+  - (* PDel *)
+    destruct (lookupN (p_map s) ch) as [i|] eqn:Em.
+    + destruct (lookup (p_inst s) i) as [w|] eqn:Ei; [|discriminate].
+      pose proof (lookupN_mapped _ _ _ Em) as Hin. pose proof (C2 _ _ Hin) as Hch.
+      assert (Hc : chan_of s i = ch) by (unfold chan_of; rewrite Hch; reflexivity).
+      pose proof (HR i w Ei) as R. rewrite Hc in R.
+      pose proof (close_rel (cf ch) flush w (g i) R) as A.
+      destruct (cw_close flush w) as [w1 b] eqn:Ec. injection H as <-.
+      assert (Hem : emitted s (mkP (removeN (p_map s) ch) ((i, w1) :: p_inst s) (p_ich s) (p_refs s) (p_timers s)
+                                 (p_next s) (emit (p_out s) ch i b))
+                    = match b with Some items => [(ch, i, items)] | None => [] end).
+      { unfold emitted. apply emitted_emit. reflexivity. }
+      split.
+      * intros c j bt Hin'. rewrite Hem in Hin'. destruct b as [items|]; [|destruct Hin'].
+        destruct Hin' as [E|[]]. injection E as <- <- <-. rewrite Hc. apply A.
+      * split; [exact HW'|]. split; [|split].
+        -- unfold CI; cbn. split; [|split; auto].
+           ++ intros t0 c0 i0 Hl. destruct (C1 _ _ _ Hl) as (A1 & A2). split; auto. destruct (i =? i0); [discriminate|auto].
+           ++ intros c0 i0 Hin0. unfold removeN in Hin0. apply filter_In in Hin0. apply C2. apply Hin0.
+        -- intros j wj. cbn [p_inst lookup]. unfold gnext. cbn [closed_by gview]. rewrite Em.
+           rewrite (chan_of_stable s _ j) by reflexivity.
+           destruct (i =? j) eqn:E.
+           ++ apply Nat.eqb_eq in E. subst j. intros [= <-]. rewrite Nat.eqb_refl, orb_true_r. rewrite Hc.
+              destruct b; [apply A|exact A].
+           ++ intros Hl. rewrite Hem. rewrite (Nat.eqb_sym j i), E, orb_false_r.
+              replace (existsb _ _) with false by (destruct b; cbn; [rewrite E|]; reflexivity).
+              apply HR; exact Hl.
+        -- intros j. cbn [p_inst lookup]. destruct (i =? j) eqn:E; [discriminate|]. intros Hl.
+           unfold gnext. cbn [closed_by gview]. rewrite Em, Hem, (Nat.eqb_sym j i), E, orb_false_r.
+           replace (existsb _ _) with false by (destruct b; cbn; [rewrite E|]; reflexivity).
+           apply HN; exact Hl.
+    + injection H as <-. split; [intros c j b Hin; rewrite emitted_same in Hin by reflexivity; destruct Hin|].
+      split; [exact HW|]. split; [unfold CI; auto|]. split.
+      * intros j wj Hl. unfold gnext. rewrite emitted_same by reflexivity. cbn [closed_by]. rewrite Em. cbn. apply HR. exact Hl.
+      * intros j Hl. unfold gnext. rewrite emitted_same by reflexivity. cbn [closed_by]. rewrite Em. cbn. apply HN. exact Hl.
+  - (* PClose *)
+    rewrite close_mapped_cm in H.
+    destruct HW as (ND & HM & HI).
+    destruct (close_mapped_spec cf flush g (p_map s) (p_inst s) (p_out s) ND) as (A & B & E & HE & HEin).
+    { intros ch j Hin. destruct (HM ch j Hin) as (_ & Hex). destruct (lookup (p_inst s) j) as [w|] eqn:Ej; [|congruence].
+      exists w. split; auto. pose proof (HR j w Ej) as R. unfold chan_of in R. rewrite (C2 _ _ Hin) in R. exact R. }
+    destruct (fold_left (cm_step flush) (p_map s) (p_inst s, p_out s)) as [insts out] eqn:Ef. injection H as <-.
+    cbn [fst snd] in A, B, HE.
+    assert (Hem : emitted s (mkP (p_map s) insts (p_ich s) (p_refs s) (p_timers s) (p_next s) out) = E).
+    { unfold emitted; cbn [p_out]. rewrite HE, skipn_app, Nat.sub_diag, skipn_all. reflexivity. }
+    assert (Hmapped : forall j, mapped s j = true -> exists ch, In (ch, j) (p_map s)).
+    { intros j Hj. unfold mapped in Hj. apply existsb_exists in Hj. destruct Hj as ((ch, k) & Hin & Ek).
+      cbn in Ek. apply Nat.eqb_eq in Ek. subst. eauto. }
+    split.
+    + intros c j bt Hin. rewrite Hem in Hin. destruct (HEin _ _ _ Hin) as (Hm & ->).
+      unfold chan_of. rewrite (C2 _ _ Hm). reflexivity.
+    + split; [exact HW'|]. split; [|split].
+      * unfold CI; cbn. split; [|split; auto].
+        intros t0 c0 i0 Hl. destruct (C1 _ _ _ Hl) as (A1 & A2). split; auto.
+        destruct (mapped s i0) eqn:Emp.
+        -- destruct (Hmapped _ Emp) as (ch & Hin). destruct (B _ _ Hin) as (w' & Hw' & _). congruence.
+        -- rewrite (A i0 Emp). exact A2.
+      * intros j wj. cbn [p_inst]. unfold gnext. cbn [closed_by gview]. rewrite (chan_of_stable s _ j) by reflexivity.
+        destruct (mapped s j) eqn:Emp.
+        -- rewrite orb_true_r. destruct (Hmapped _ Emp) as (ch & Hin). destruct (B _ _ Hin) as (w' & Hw' & R').
+           intros Hl. rewrite Hw' in Hl. injection Hl as <-. unfold chan_of. rewrite (C2 _ _ Hin). exact R'.
+        -- rewrite (A j Emp). intros Hl. rewrite orb_false_r, Hem.
+           replace (existsb (fun e => snd (fst e) =? j) E) with false; [apply HR; exact Hl|].
+           symmetry. destruct (existsb (fun e => snd (fst e) =? j) E) eqn:Ex; auto.
+           apply existsb_exists in Ex. destruct Ex as (((c0, k), bt) & Hin & Ek). cbn in Ek. apply Nat.eqb_eq in Ek. subst k.
+           destruct (HEin _ _ _ Hin) as (Hm & _). apply mapped_in in Hm. congruence.
+      * intros j. cbn [p_inst]. intros Hl. unfold gnext. cbn [closed_by gview].
+        destruct (mapped s j) eqn:Emp; [rewrite orb_true_r; reflexivity|].
+        rewrite (A j Emp) in Hl. rewrite orb_false_r, Hem.
+        destruct (existsb (fun e => snd (fst e) =? j) E); [reflexivity|apply HN; exact Hl].
+Qed.
+
+Theorem pcw_instance_spec cf sched : forall s g, GI cf s g -> gcheck cf s g sched.
+Proof.
+  induction sched as [|l sched IH]; intros s g HG; cbn [gcheck]; auto.
+  destruct (pstep cf s l) as [s'|] eqn:E; auto.
+  destruct (gstep_ok cf s g l s' HG E) as (A & B). split; auto.
+Qed.
